@@ -29,6 +29,8 @@ pub struct ModuleCollector {
     loaded: HashMap<PathBuf, ResolvedModule>,
     /// Modules currently being loaded (for cycle detection)
     loading: HashSet<PathBuf>,
+    /// Paths of the loaded modules in the order loading finished (dependencies before dependents)
+    load_order: Vec<PathBuf>,
 }
 
 impl ModuleCollector {
@@ -42,6 +44,7 @@ impl ModuleCollector {
             base_dir,
             loaded: HashMap::new(),
             loading: HashSet::new(),
+            load_order: Vec::new(),
         }
     }
 
@@ -55,12 +58,16 @@ impl ModuleCollector {
         let mut result = Vec::new();
         let entry_key = canonical.clone();
 
-        // First add all non-entry modules
-        for (path, module) in self.loaded.drain() {
+        // First add all non-entry modules, in the order they finished loading. (Draining the HashMap directly
+        // would yield them in an arbitrary order that differs from run to run.)
+        for path in std::mem::take(&mut self.load_order) {
             if path != entry_key {
-                result.push(module);
+                if let Some(module) = self.loaded.remove(&path) {
+                    result.push(module);
+                }
             }
         }
+        self.loaded.clear();
 
         // Entry module is handled separately
         Ok(result)
@@ -104,6 +111,7 @@ impl ModuleCollector {
         }
 
         self.loading.remove(path);
+        self.load_order.push(path.to_path_buf());
         self.loaded.insert(
             path.to_path_buf(),
             ResolvedModule {
